@@ -66,10 +66,11 @@ SelNested(lazy) == { <<Dl(".", FALSE), I("x", FALSE)>> \o NestR(fs, s) : fs \in 
              \cup { <<I("li", FALSE), Col(FALSE), Fn("nth-child", <<Dim(29, "n", FALSE), Num(30, FALSE), I("of", TRUE)>> \o SetW(s, TRUE), FALSE)>> : s \in SelFew }
              \cup { <<Col(FALSE), Fn("not", <<Dl(".", w), I("a", FALSE), Com(FALSE), Dl(".", TRUE), I("b", FALSE)>>, FALSE), Dl(".", w), I("c", FALSE)>> : w \in BOOLEAN }
 
-WrappersQ(r) == { <<r>>, <<At("layer", <<I("base", TRUE)>>, "rules", <<r>>)>>,
+WrappersQ(r) == { <<r>>, <<At("layer", <<I("base", TRUE)>>, "rules", <<r>>)>>, <<At("MEDIA", <<I("screen", TRUE)>>, "rules", <<r>>)>>,
                  <<At("container", <<I("card", TRUE), Par(<<I("min-width", FALSE), Col(FALSE), Dim(3, "rpx", TRUE)>>, TRUE)>>, "rules", <<r>>)>>,
                  <<At("media", <<I("screen", TRUE)>>, "rules", <<At("scope", <<Par(<<Dl(".", FALSE), I("s", FALSE)>>, TRUE)>>, "rules", <<r, Rule(<<I("p", FALSE)>>, Red)>>)>>)>> }
-WrappersT(r) == { <<r>>, <<At("media", <<Par(<<I("min-width", FALSE), Col(FALSE), Dim(3, "px", TRUE)>>, TRUE)>>, "rules", <<r>>)>>,
+WrappersT(r) == { <<r>>, <<At("MEDIA", <<I("screen", TRUE)>>, "rules", <<r>>)>>, <<At("Supports", <<Par(<<I("a", FALSE), Col(FALSE), I("b", FALSE)>>, TRUE)>>, "rules", <<r>>)>>,
+                 <<At("media", <<Par(<<I("min-width", FALSE), Col(FALSE), Dim(3, "px", TRUE)>>, TRUE)>>, "rules", <<r>>)>>,
                  <<At("supports", <<Par(<<I("display", FALSE), Col(FALSE), I("grid", TRUE)>>, TRUE)>>, "rules", <<r>>)>>,
                  <<At("layer", <<I("base", TRUE)>>, "rules", <<r>>)>>,
                  <<At("container", <<I("card", TRUE), Par(<<I("min-width", FALSE), Col(FALSE), Dim(3, "rpx", TRUE)>>, TRUE)>>, "rules", <<r>>)>>,
@@ -151,10 +152,10 @@ FTok(lazy) == { <<Rule(<<Dl(".", FALSE), I("a", FALSE)>>, <<Decl(p[1], p[2])>>)>
 HostSel == <<Col(FALSE), I("host", FALSE)>>
 HD == <<Decl("color", <<I("pink", FALSE)>>), Decl("width", <<Dim(3, "rpx", FALSE)>>)>>
 Ord(n) == Rule(<<Dl(".", FALSE), I(n, FALSE)>>, Red)
-HostRules == { Rule(HostSel, HD), Rule(<<Col(FALSE), Fn("host", <<Dl(".", FALSE), I("x", FALSE)>>, FALSE)>>, HD),
+HostRules == { Rule(HostSel, HD), Rule(<<Col(FALSE), I("HOST", FALSE)>>, HD), Rule(<<Col(FALSE), Fn("host", <<Dl(".", FALSE), I("x", FALSE)>>, FALSE)>>, HD),
                Rule(HostSel \o <<Dl(".", TRUE), I("a", FALSE)>>, HD), Rule(HostSel \o <<Com(FALSE), Dl(".", FALSE), I("a", FALSE)>>, HD),
                Rule(HostSel \o <<Col(FALSE), I("hover", FALSE)>>, HD) }
-Chains(rs) == { rs, <<At("media", <<Par(<<I("width", FALSE), Col(FALSE), Dim(3, "px", TRUE)>>, TRUE)>>, "rules", rs)>>,
+Chains(rs) == { rs, <<At("Media", <<I("screen", TRUE)>>, "rules", rs)>>, <<At("media", <<Par(<<I("width", FALSE), Col(FALSE), Dim(3, "px", TRUE)>>, TRUE)>>, "rules", rs)>>,
                 <<At("media", <<I("screen", TRUE)>>, "rules", <<Ord("m")>> \o <<At("supports", <<Par(<<I("color", FALSE), Col(FALSE), I("red", TRUE)>>, TRUE)>>, "rules", rs)>> \o <<Ord("n")>>)>>,
                 <<At("supports", <<Par(<<I("a", FALSE), Col(FALSE), I("b", FALSE)>>, TRUE)>>, "rules",
                     <<At("media", <<I("print", TRUE)>>, "rules", <<At("media", <<Par(<<I("c", FALSE), Col(FALSE), Dim(3, "rpx", FALSE)>>, TRUE)>>, "rules", rs)>>)>>)>> }
@@ -175,6 +176,7 @@ FImport(lazy) == { <<Import(f, p, l, s, m)>> : f \in {"string", "url"}, p \in Im
                                          s \in {<<>>, <<I("display", FALSE), Col(FALSE), I("grid", TRUE)>>},
                                          m \in {<<>>, <<I("screen", TRUE)>>, <<I("screen", TRUE), I("and", TRUE), Par(<<I("min-width", FALSE), Col(FALSE), Dim(3, "rpx", TRUE)>>, TRUE)>>} }
            \cup { <<Ord("a"), Import("string", p, "none", <<>>, <<>>)>> : p \in ImportPaths }
+           \cup { <<Import("STRING", p, l, <<>>, <<>>)>> : p \in {"a.wxss", "a%20b"}, l \in {"none", "x"} }      \* @IMPORT
            \cup { <<Import("string", "a", "none", <<>>, <<>>), Import("string", "b", "x", <<>>, <<I("print", TRUE)>>), Ord("z")>> }
 ImportOpts == {[NoOpt EXCEPT !.importSign = s, !.prefix = p] : s \in {"none", "IMP"}, p \in {"none", "p"}}
 
